@@ -23,28 +23,38 @@ Definition m_room_create : bytes := bs "m.room.create".
 
 (* the room-ID check made when the event struct is filled: checkID for eventV1 / eventV2,
    checkRoomID (sigil, validity, length; skipped for the create event) for eventV3; in both
-   cases a room ID that spec.NewRoomID refuses is refused (repair of F9) *)
+   cases a room ID that spec.NewRoomID refuses is refused (repair of F9), and a room ID that
+   exceeds only the byte limit does not stop parsing (notOnlyTooManyBytes): CheckFields reports
+   it, with the event *)
 Definition room_valid (room : bytes) : bool :=
   match room_id_parse room with Some _ => true | None => false end.
+Definition not_only_too_many_bytes (v : verdict) : verdict :=
+  match v with VTooLarge true => VOk | e => e end.
+Definition is_create_v3 (type : bytes) (state_key : option bytes) : bool :=
+  bytes_eqb type m_room_create && match state_key with Some k => is_nil k | None => false end.
 Definition check_room (struct : N) (type : bytes) (state_key : option bytes) (room : bytes) : verdict :=
   if struct =? 3 then
-    let is_create := bytes_eqb type m_room_create
-                     && match state_key with Some k => is_nil k | None => false end in
-    if is_create then VOk
+    if is_create_v3 type state_key then VOk
     else match room with
-         | c :: _ => if c =? 33 then (if room_valid room then check_id_length room else VErr) else VErr
+         | c :: _ => if c =? 33 then (if room_valid room then not_only_too_many_bytes (check_id_length room) else VErr) else VErr
          | [] => VErr
          end
-  else match check_id room 33 with
+  else match not_only_too_many_bytes (check_id room 33) with
        | VOk => if room_valid room then VOk else VErr
        | e => e
        end.
+
+(* what RoomID() returns: for the create event of an eventV3 the room ID is derived from the
+   event ID ('!' and the 43 base64 characters of the reference hash) *)
+Definition derived_room_id : bytes := 33 :: repeat 65 43.
+Definition room_id_of (struct : N) (type : bytes) (state_key : option bytes) (room : bytes) : bytes :=
+  if (struct =? 3) && is_create_v3 type state_key then derived_room_id else room.
 
 (* the room-ID check, then CheckFields *)
 Definition event_checks (struct : N) (v : bytes) (refs_nil : bool) (json_len : N) (type : bytes)
     (state_key : option bytes) (sender room : bytes) : verdict :=
   match check_room struct type state_key room with
-  | VOk => check_fields v refs_nil json_len type state_key sender
+  | VOk => check_fields v refs_nil json_len type state_key sender (room_id_of struct type state_key room)
   | e => e
   end.
 
